@@ -1,12 +1,14 @@
 package sx
 
 import (
+	"context"
 	"fmt"
 	"os"
 	"path/filepath"
 	"time"
 
 	bleve "github.com/blevesearch/bleve/v2"
+	"github.com/blevesearch/bleve/v2/index/scorch/mergeplan"
 )
 
 // directed replays the schedule TLC finds as the counterexample of
@@ -27,6 +29,11 @@ type DirectedResult struct {
 	Samples []any // Sample events (TraceFiles vocabulary)
 	Records []any // TraceCrash records incl. CopyBegin / Recovered of the copy
 	CopyErr error
+	// DirectedFailedMerge
+	Merged       int            // merge introductions of the first forced merge
+	FailedMerges int            // merges that ended with an error
+	Reopen       map[string]any // what reopening after the run found
+	Events       []Event
 }
 
 func DirectedHeldEpoch(base string, seed int64, useCopy bool) (*DirectedResult, error) {
@@ -96,10 +103,12 @@ func DirectedHeldEpoch(base string, seed int64, useCopy bool) (*DirectedResult, 
 		// release must not take away the protection of the files the parked one needs
 		dest2 := filepath.Join(filepath.Dir(dir), "copy2")
 		r.RemoveHold("copy.memfile") // the second backup runs unhindered
+		r.RemoveHold("copy.file")
 		if err := r.Idx.(bleve.IndexCopyable).CopyTo(bleve.FileSystemDirectory(dest2)); err != nil {
 			res.CopyErr = fmt.Errorf("overlapping copy: %v", err)
 		}
 		r.AddHold(HoldRule{Point: "copy.memfile", Until: "Go2", Count: 1, Timeout: 20 * time.Second, Prob: 1, Once: true})
+		r.AddHold(HoldRule{Point: "copy.file", Until: "Go2", Count: 1, Timeout: 20 * time.Second, Prob: 1, Once: true})
 		_ = os.RemoveAll(dest2)
 	} else {
 		if rid, err = r.OpenReader(); err != nil {
@@ -141,6 +150,7 @@ func DirectedHeldEpoch(base string, seed int64, useCopy bool) (*DirectedResult, 
 	if err := r.Close(); err != nil {
 		return nil, err
 	}
+	res.Samples = append(res.Samples, map[string]any{"ev": "Reset"})
 	for _, ev := range r.Rec.Events() {
 		if ev["ev"] == "Sample" {
 			res.Samples = append(res.Samples, map[string]any(ev))
@@ -166,3 +176,110 @@ func waitParked(r *Run, timeout time.Duration) bool {
 	return false
 }
 
+
+// DirectedFailedMerge drives the "fast merger, slow persister, failed merge"
+// schedule of ScorchDisk's MFail action (found by TLC as the shortest way a
+// wrongly released mark loses a root file):
+//
+//	six persisted file segments; the persister is parked at the start of its
+//	purge; a forced merge turns them into two merged files which the parked
+//	persister has not recorded; a second forced merge over those two is
+//	cancelled after it marked its output name; the purge is released.
+//
+// Observations are taken while the merged files are protected by their marks
+// alone, and after the purge ran.
+func DirectedFailedMerge(base string, seed int64) (*DirectedResult, error) {
+	dir := filepath.Join(base, "idx")
+	defer os.RemoveAll(base)
+	res := &DirectedResult{}
+	wl := Workload{Name: "directed-mergefail", Writers: 1, Safe: false, KVConfig: map[string]interface{}{
+		"unsafe_batch": true,
+		// the background planner stays passive (budget = number of live documents)
+		"scorchMergePlanOptions": map[string]interface{}{"FloorSegmentSize": 1},
+	}}
+	r, err := Start(dir, wl, seed, 0)
+	if err != nil {
+		return nil, err
+	}
+	closed := false
+	defer func() {
+		if !closed {
+			r.SetHolds(nil)
+			r.Rec.Emit("GoPurge", nil)
+			r.Rec.Emit("GoMerge", nil)
+			_ = r.Close()
+		}
+	}()
+	ids := []string{"a", "b", "c", "d", "e", "f"}
+	for i, id := range ids {
+		if i == len(ids)-1 {
+			// park the persister at the start of the purge that follows this batch
+			r.SetHolds([]HoldRule{{Point: "purge.begin", Until: "GoPurge", Count: 1, Timeout: 30 * time.Second, Prob: 1, Once: true}})
+		}
+		if _, err := r.Submit(BatchSpec{W: 1, Puts: []string{id}}); err != nil {
+			return nil, err
+		}
+		if i < len(ids)-1 && !r.Quiesce(20*time.Second) {
+			return nil, fmt.Errorf("directed-mergefail: no quiescence after batch %d", i+1)
+		}
+	}
+	if !r.WaitParked("purge.begin", 1, 20*time.Second) {
+		return nil, fmt.Errorf("directed-mergefail: the persister did not reach its purge")
+	}
+	merges0 := r.Rec.Count("IntroMerge")
+	opts := mergeplan.SingleSegmentMergePlanOptions
+	opts.SegmentsPerMergeTask = 3
+	ctx, cancel := context.WithTimeout(context.Background(), 30*time.Second)
+	err = r.Sc.ForceMerge(ctx, &opts)
+	cancel()
+	if err != nil {
+		return nil, fmt.Errorf("directed-mergefail: forced merge: %v", err)
+	}
+	res.Merged = r.Rec.Count("IntroMerge") - merges0
+	r.Sample("merged-unpersisted")
+	// second merge, over the merged files: cancelled once it has marked its output
+	r.AddHold(HoldRule{Point: "merge.marked", Until: "GoMerge", Count: 1, Timeout: 30 * time.Second, Prob: 1, Once: true})
+	cleanups0 := r.Rec.Count("MergeCleanup")
+	ctx2, cancel2 := context.WithCancel(context.Background())
+	done := make(chan error, 1)
+	go func() { done <- r.Sc.ForceMerge(ctx2, nil) }()
+	if r.WaitParked("merge.marked", 1, 10*time.Second) {
+		cancel2()
+		time.Sleep(3 * time.Millisecond) // the listener closes the merge's cancel channel
+		r.Rec.Emit("GoMerge", nil)
+	}
+	<-done
+	cancel2()
+	r.Rec.WaitCount("MergeCleanup", cleanups0+1, 10*time.Second)
+	for _, ev := range r.Rec.Events() {
+		if ev["ev"] == "MergeCleanup" {
+			if e, _ := ev["err"].(bool); e {
+				res.FailedMerges++
+			}
+		}
+	}
+	r.Sample("after-failed-merge")
+	purges0 := r.Rec.Count("PurgeEnd")
+	r.Rec.Emit("GoPurge", nil)
+	deadline := time.Now().Add(10 * time.Second)
+	for r.Rec.Count("PurgeEnd") < purges0+1 && time.Now().Before(deadline) {
+		time.Sleep(time.Millisecond)
+	}
+	r.Sample("after-purge")
+	r.SetHolds(nil)
+	if r.Settle(30 * time.Second) {
+		r.Sample("quiescent")
+	}
+	closed = true
+	if err := r.Close(); err != nil {
+		return nil, err
+	}
+	// reopening at that moment must come up with the same content
+	rec, _, idx := RecoveredRecord(dir, "reopen", nil)
+	if idx != nil {
+		_ = idx.Close()
+	}
+	res.Reopen = rec
+	res.Events = r.Rec.Events()
+	return res, nil
+}
